@@ -150,7 +150,7 @@ def run(ctx, config='rel-all'):
                     continue
                 just = None
                 for (suffix, shape), reason in JUSTIFIED.items():
-                    if b['id'].endswith(suffix) and (shape is None or shape == ns) and reason:
+                    if b['id'].replace('std::', 'core::').endswith(suffix.replace('std::', 'core::')) and (shape is None or shape == ns) and reason:
                         just = reason
                         used_table.add((suffix, shape))
                 if just:
